@@ -98,12 +98,15 @@ AbsentOfEmpty(e, lbl) ==
          (lbl = "a" /\ e.e.ma = "empty") \/ (lbl = "b" /\ e.e.mb = "empty")
     [] OTHER -> AbsentOfEmpty(e.e, lbl)
 
-\* label_replace(e, lbl, "", ...) somewhere in e: the empty replacement removes lbl, the analysis guarantees it
+\* label_replace(x, lbl, "", ...) somewhere in e: the empty replacement removes lbl. "own": only label_replace's own
+\* guarantee puts lbl on the result (x cannot have it: F37); "below": x itself can have lbl according to the analysis,
+\* which has no way to say that it was removed afterwards
 RECURSIVE ReplacedByEmpty(_, _)
 ReplacedByEmpty(e, lbl) ==
-  CASE e.k \in {"sel", "num", "time"} -> FALSE
-    [] e.k = "bin" -> ReplacedByEmpty(e.l, lbl) \/ ReplacedByEmpty(e.r, lbl)
-    [] e.k = "fn" /\ e.f = "lrep" /\ e.dst = lbl /\ e.repl = "" -> TRUE
+  CASE e.k \in {"sel", "num", "time"} -> "no"
+    [] e.k = "bin" -> LET x == ReplacedByEmpty(e.l, lbl) IN IF x # "no" THEN x ELSE ReplacedByEmpty(e.r, lbl)
+    [] e.k = "fn" /\ e.f = "lrep" /\ e.dst = lbl /\ e.repl = "" ->
+         IF \E i \in 1..Len(Abs(e.e)) : CanHaveLabel(Abs(e.e)[i], lbl) THEN "below" ELSE "own"
     [] OTHER -> ReplacedByEmpty(e.e, lbl)
 
 Cause(b, c, f) ==
@@ -111,7 +114,8 @@ Cause(b, c, f) ==
          (CASE b.vm = "ign" /\ f.label \in b.ls -> "label-is-ignored"
             [] b.vm = "on" /\ f.label \in ToSet(IF b.grp = "right" THEN c.rcannot ELSE c.lcannot) -> "on-label-on-neither-side"
             [] AbsentOfEmpty(IF b.grp = "right" THEN b.r ELSE b.l, f.label) -> "absent-of-empty-matcher"
-            [] ReplacedByEmpty(IF b.grp = "right" THEN b.r ELSE b.l, f.label) -> "label-replaced-by-empty"
+            [] ReplacedByEmpty(IF b.grp = "right" THEN b.r ELSE b.l, f.label) = "own" -> "label-replaced-by-empty"
+            [] ReplacedByEmpty(IF b.grp = "right" THEN b.r ELSE b.l, f.label) = "below" -> "label-removed-but-still-possible"
             [] OTHER -> "-")
     [] f.kind = "or" -> IF ~(b.vm = "on" /\ b.ls = {}) THEN "or-without-on()" ELSE "lhs-always" \o HazardStr(Hazards(b.l))
     [] f.kind = "unless" -> "rhs-always" \o HazardStr(Hazards(b.r))
